@@ -16,6 +16,7 @@
 #include <amgcl/solver/runtime.hpp>
 #include <amgcl/coarsening/runtime.hpp>
 #include <amgcl/relaxation/runtime.hpp>
+#include <amgcl/preconditioner/runtime.hpp>
 #include <vf/hooks.hpp>
 #include <vf/dense.hpp>
 #include <vf/krylov.hpp>
@@ -27,6 +28,8 @@ using vf::Csr; using vf::J; using vf::Rng; using vf::Case; using vf::Cond; using
 typedef amgcl::backend::builtin<double> B;
 typedef amgcl::amg<B, amgcl::runtime::coarsening::wrapper, amgcl::runtime::relaxation::wrapper> AMG;
 typedef amgcl::make_solver<AMG, amgcl::runtime::solver::wrapper<B>> Solver;
+// weak preconditioners (relaxation::as_preconditioner, dummy, single-level amg) come through the run-time preconditioner class
+typedef amgcl::make_solver<amgcl::runtime::preconditioner<B>, amgcl::runtime::solver::wrapper<B>> SolverRt;
 typedef boost::property_tree::ptree ptree;
 
 static const char *COARS[4] = {"aggregation", "smoothed_aggregation", "smoothed_aggr_emin", "ruge_stuben"};
@@ -80,29 +83,36 @@ static void put_solver(ptree &p, const SolverCfg &s, double tol, size_t maxiter)
     if (s.has_side) p.put("solver.pside", s.left ? "left" : "right");
 }
 static size_t nlevels(const Solver &S) { return amgcl::verif::access::levels(S.precond()).size(); }
+static size_t nlevels(const SolverRt &) { return 0; }
 
 struct Outcome { bool threw = false; std::string what; size_t iters = 0; double res = 0, tru = 0; size_t levels = 0; };
 
 // one monitored call: construct make_solver from the tree, call operator()(rhs, x), evaluate oracles (a) and (b)
-static Outcome monitored_solve(Case &c, const Csr<double> &A, const Cond &K, const ptree &p, const CallSpec &cs,
-                               const std::vector<double> &f, const std::vector<double> &x0, const std::string &tag = "", bool symmetric = true) {
+template <class SolverT>
+static Outcome monitored_solve_t(Case &c, const Csr<double> &A, const Cond &K, const ptree &p, const CallSpec &cs,
+                                 const std::vector<double> &f, const std::vector<double> &x0, const std::string &cell, bool cheb_outside_domain) {
     Outcome o; std::vector<double> x = x0;
     try {
-        Solver S(A.tie(), p); o.levels = nlevels(S);
+        SolverT S(A.tie(), p); o.levels = nlevels(S);
         std::vector<double> fcopy = f;
         std::tie(o.iters, o.res) = S(fcopy, x);
         auto applyP = [&](const std::vector<double> &r, std::vector<double> &z) { S.precond().apply(r, z); };
         Cond Kc = K; Kc.normP = probe_precond_norm(A, applyP, f, x);
         // the Chebyshev smoother is built for symmetric positive definite spectra (Adams et al. 2003, cited in chebyshev.hpp); on the non-symmetric families
         // its evaluation is numerically unstable (measured: BiCGStab(L) gap 1e5 u ||A|| ||x0|| with ||P|| = 1.4): only explicit right-side residuals are held there
-        Kc.smoother_outside_domain = !symmetric && p.get<std::string>("precond.relax.type") == "chebyshev";
+        Kc.smoother_outside_domain = cheb_outside_domain;
         if (vf::opt_int("debug", 0)) { std::ostringstream ps; boost::property_tree::write_json(ps, p.get_child("solver"), false); fprintf(stderr, "%s: iters=%zu res=%g normA=%g normAinv=%g normP~%g %s", vf::cfg_name(cs.cfg).c_str(), o.iters, o.res, K.normA, K.normAinv, Kc.normP, ps.str().c_str()); }
         if (Kc.normP > 10 * K.normAinv) vf::obs_sum("calls_with_preconditioner_norm_above_10x_inverse_norm");
-        vf::Rerun<double> rerun = [&](const std::vector<double> &f2, std::vector<double> &x2) { try { Solver S2(A.tie(), p); S2(f2, x2); return true; } catch (const std::exception &) { return false; } };
-        vf::check_truthful(c, cs, A, f, x0, x, o.iters, o.res, Kc, applyP, tag, &o.tru, rerun);
-        vf::obs_sum("solves"); vf::obs_add("cells_covered", std::string(p.get<std::string>("precond.coarsening.type")) + "+" + p.get<std::string>("precond.relax.type") + "+" + vf::cfg_name(cs.cfg));
+        vf::Rerun<double> rerun = [&](const std::vector<double> &f2, std::vector<double> &x2) { try { SolverT S2(A.tie(), p); S2(f2, x2); return true; } catch (const std::exception &) { return false; } };
+        vf::check_truthful(c, cs, A, f, x0, x, o.iters, o.res, Kc, applyP, "", &o.tru, rerun);
+        vf::obs_sum("solves"); vf::obs_add("cells_covered", cell + "+" + vf::cfg_name(cs.cfg));
     } catch (const std::exception &e) { o.threw = true; o.what = e.what(); vf::obs_sum("exceptions_not_counted_as_violation"); }
     return o;
+}
+static Outcome monitored_solve(Case &c, const Csr<double> &A, const Cond &K, const ptree &p, const CallSpec &cs,
+                               const std::vector<double> &f, const std::vector<double> &x0, const std::string &tag = "", bool symmetric = true) {
+    (void)tag; std::string rl = p.get<std::string>("precond.relax.type");
+    return monitored_solve_t<Solver>(c, A, K, p, cs, f, x0, p.get<std::string>("precond.coarsening.type") + "+" + rl, !symmetric && rl == "chebyshev");
 }
 
 //---------------------------------------------------------------------------
@@ -179,14 +189,30 @@ static void random_precond(ptree &p, Rng &r, const Problem &P, int ci, int ri, b
     if (rl == "chebyshev" && r.coin()) p.put("precond.relax.degree", (int)r.pick(std::vector<int>{2, 3, 8}));
     if (rl == "gauss_seidel" && r.coin(0.3)) p.put("precond.relax.serial", true);
 }
-static void random_solver_extras(ptree &p, Rng &r, const SolverCfg &s, CallSpec &cs) {
+// every solver parameter that changes the arithmetic is drawn, including the rarely set ones (reliable updates of BiCGStab(L), IDR(s) smoothing /
+// replacement / omega, LGMRES K / always_reset, short restarts, Richardson damping, check_after, abstol, ns_search)
+static void random_solver_extras(ptree &p, Rng &r, const SolverCfg &s, CallSpec &cs, bool zero_rhs) {
     std::string t = s.type;
-    if (t == "gmres" || t == "fgmres") { if (r.coin(0.6)) p.put("solver.M", (int)r.pick(std::vector<int>{2, 5, 10, 30})); }
-    if (t == "lgmres") { if (r.coin(0.6)) { p.put("solver.M", (int)r.pick(std::vector<int>{3, 5, 10, 30})); p.put("solver.K", (int)r.range(0, 3)); } }
-    if (t == "bicgstabl") { if (r.coin(0.7)) { cs.L = (int)r.pick(std::vector<int>{1, 2, 3, 4}); p.put("solver.L", cs.L); } if (r.coin(0.3)) p.put("solver.convex", false); if (r.coin(0.3)) { cs.delta = 1e-2; p.put("solver.delta", cs.delta); } }
-    if (t == "idrs") { if (r.coin(0.7)) p.put("solver.s", (int)r.range(1, 8)); if (r.coin(0.3)) p.put("solver.smoothing", true); if (r.coin(0.3)) p.put("solver.replacement", true); if (r.coin(0.3)) p.put("solver.omega", 0.0); }
+    if (t == "gmres" || t == "fgmres") { if (r.coin(0.6)) p.put("solver.M", (int)r.pick(std::vector<int>{1, 2, 5, 10, 30})); }
+    if (t == "lgmres") { if (r.coin(0.6)) { p.put("solver.M", (int)r.pick(std::vector<int>{1, 3, 5, 10, 30})); p.put("solver.K", (int)r.range(0, 4)); } if (r.coin(0.3)) p.put("solver.always_reset", false); }
+    if (t == "bicgstabl") { if (r.coin(0.7)) { cs.L = (int)r.pick(std::vector<int>{1, 2, 3, 4}); p.put("solver.L", cs.L); } if (r.coin(0.3)) p.put("solver.convex", false);
+        if (r.coin(0.6)) { cs.delta = r.pick(std::vector<double>{1e-3, 1e-2, 1e-1}); p.put("solver.delta", cs.delta); } }
+    if (t == "idrs") { if (r.coin(0.7)) p.put("solver.s", (int)r.range(1, 8)); if (r.coin(0.4)) p.put("solver.smoothing", true); if (r.coin(0.4)) p.put("solver.replacement", true); if (r.coin(0.4)) p.put("solver.omega", r.pick(std::vector<double>{0.0, 0.3, 0.9})); }
     if (t == "bicgstab") { if (r.coin(0.3)) p.put("solver.check_after", true); }
-    if (t == "richardson") { if (r.coin(0.4)) p.put("solver.damping", r.pick(std::vector<double>{0.5, 0.8, 1.2})); }
+    if (t == "richardson") { if (r.coin(0.5)) p.put("solver.damping", r.pick(std::vector<double>{0.3, 0.5, 0.8, 1.2})); }
+    if (r.coin(0.15)) p.put("solver.abstol", r.pick(std::vector<double>{1e-30, 1e-9, 1e-4}));       // absolute target: an earlier (truthful) exit
+    cs.ns_search = zero_rhs || r.coin(0.1); if (cs.ns_search) p.put("solver.ns_search", true);   // with a non-zero rhs the flag must not change anything
+}
+
+// weak preconditioners: Krylov residual histories are non-monotone, budgets are exhausted, reliable-update logic is exercised
+static const char *WEAK[7] = {"relaxation:spai0", "relaxation:damped_jacobi", "relaxation:ilu0", "relaxation:gauss_seidel", "relaxation:chebyshev", "dummy", "amg:max_levels=1"};
+static void weak_precond(ptree &p, Rng &r, int k) {
+    switch (k) {
+    case 0: case 1: case 2: case 3: case 4: { static const char *t[5] = {"spai0", "damped_jacobi", "ilu0", "gauss_seidel", "chebyshev"}; p.put("precond.class", "relaxation"); p.put("precond.type", t[k]); break; }
+    case 5: p.put("precond.class", "dummy"); break;
+    default: p.put("precond.class", "amg"); p.put("precond.max_levels", 1); p.put("precond.coarse_enough", 10); p.put("precond.relax.type", r.pick(std::vector<std::string>{"spai0", "damped_jacobi", "gauss_seidel", "ilu0"}));
+             p.put("precond.coarsening.type", "smoothed_aggregation"); if (r.coin()) { p.put("precond.npre", (int)r.range(1, 2)); p.put("precond.npost", (int)r.range(0, 2)); } break;
+    }
 }
 
 static void sub_truthful() {
@@ -195,33 +221,46 @@ static void sub_truthful() {
         if (!vf::selected("truthful", idx) || idx % stride != 0) continue;
         Rng r(vf::case_seed("truthful", idx));
         int fam = (int)(idx % 5); bool small = (idx / 5) % 3 == 0;             // a third of the cases have n <= 400 (exact kappa_2)
-        size_t nmax = small ? 400 : (vf::thorough() ? 8000 : 4000);
+        // every third case uses a weak preconditioner (as_preconditioner / dummy / single-level amg), half of them on convection-diffusion
+        int weak = idx % 3 == 2 ? (int)((idx / 3) % 7) : -1; if (weak >= 0) fam = (idx / 21) % 2 ? 3 : (int)((idx / 42) % 2);
+        if (weak == 4 && fam == 3) fam = 1;                                     // Chebyshev stays inside its (SPD) domain here
+        size_t nmax = small ? 400 : (weak >= 0 ? 2500 : (vf::thorough() ? 8000 : 4000));
         Problem P = gen_problem(r, fam, nmax); const Csr<double> &A = P.A;
         int ci = (int)((idx / 5 + idx) % 4), ri = (int)((idx / 3 + 2 * idx) % 9);   // every cell is visited as idx runs
-        ptree pp; random_precond(pp, r, P, ci, ri, true);
+        ptree pp; if (weak >= 0) weak_precond(pp, r, weak); else random_precond(pp, r, P, ci, ri, true);
+        const std::string cname = weak >= 0 ? "-" : COARS[ci], rname = weak >= 0 ? WEAK[weak] : RELAX[ri];
         // right-hand side and initial guess
         std::vector<double> xs = vf::random_vector(A.n, r), f(A.n), x0(A.n, 0.0);
-        int fkind = (int)r.range(0, 2);
+        int fkind = (int)r.range(0, 2); if (idx % 16 == 5) fkind = 3;          // zero right-hand side, solved with ns_search = true (null-space search mode: residual relative to 1)
+        if (fkind == 3) std::fill(f.begin(), f.end(), 0.0); else
         if (fkind == 0) f = vf::random_vector(A.n, r); else { auto y = vf::spmv_ld(A, xs); for (size_t i = 0; i < A.n; ++i) f[i] = (double)y[i]; if (fkind == 2) for (auto &v : f) v *= 1e-5; }
-        int xkind = (int)r.range(0, 3);
+        int xkind = (int)r.range(0, 3); if (fkind == 3) xkind = 1;
         if (xkind == 1) x0 = vf::random_vector(A.n, r);
         else if (xkind == 2) { double sc = r.logu(1e-2, 1e3); x0 = vf::random_vector(A.n, r); for (auto &v : x0) v *= sc; }
         else if (xkind == 3) { for (size_t i = 0; i < A.n; ++i) x0[i] = xs[i] * (fkind == 2 ? 1e-5 : 1.0) * (1 + 1e-3 * r.uni(-1, 1)); }   // close to the solution when f = A xs
         std::ostringstream ps; boost::property_tree::write_json(ps, pp, false);
-        Case c("truthful", idx, J().s("family", P.family).n("n", A.n).n("nnz", A.nnz()).s("coarsening", COARS[ci]).s("relaxation", RELAX[ri]).n("rhs_kind", fkind).n("x0_kind", xkind)
+        Case c("truthful", idx, J().s("family", P.family).n("n", A.n).n("nnz", A.nnz()).s("coarsening", cname).s("relaxation", rname).n("rhs_kind", fkind).n("x0_kind", xkind)
                .n("kappa_bound", P.K.kappa()).s("kappa_how", P.K.how).o("gen", P.desc).s("precond_params", ps.str()));
         size_t levels = 0; bool any = false; int nexc = 0;
         for (const SolverCfg &s : vf::SOLVER_CFGS) {
             for (int rep = 0; rep < 2; ++rep) {
                 ptree p = pp; CallSpec cs; cs.cfg = s; cs.L = 2;
                 cs.tol = r.pick(std::vector<double>{1e-4, 1e-6, 1e-8}); cs.maxiter = rep == 0 ? 100 : (size_t)r.range(3, 9);   // converged and budget-limited exits
-                put_solver(p, s, cs.tol, cs.maxiter); random_solver_extras(p, r, s, cs);
-                Outcome o = monitored_solve(c, A, P.K, p, cs, f, x0, "", P.family.rfind("convdiff", 0) != 0);
+                put_solver(p, s, cs.tol, cs.maxiter); random_solver_extras(p, r, s, cs, fkind == 3);
+                bool nonsym = P.family.rfind("convdiff", 0) == 0;
+                Outcome o = weak >= 0 ? monitored_solve_t<SolverRt>(c, A, P.K, p, cs, f, x0, rname, nonsym && weak == 4)
+                                      : monitored_solve(c, A, P.K, p, cs, f, x0, "", !nonsym);
                 if (o.threw) { ++nexc; vf::obs_add("exception_texts", o.what.substr(0, 60)); continue; }
                 levels = std::max(levels, o.levels); if (o.iters >= 1 && std::isfinite(o.res)) any = true;
-                if (rep == 0 && idx < 40) vf::sample("truthful", J().s("family", P.family).n("n", A.n).s("cell", std::string(COARS[ci]) + "+" + RELAX[ri] + "+" + vf::cfg_name(s)).n("tol", cs.tol).n("maxiter", cs.maxiter).n("iters", o.iters).n("reported", o.res).n("true", o.tru), 6);
+                if (rep == 0 && idx < 40) vf::sample("truthful", J().s("family", P.family).n("n", A.n).s("cell", cname + "+" + rname + "+" + vf::cfg_name(s)).n("tol", cs.tol).n("maxiter", cs.maxiter).n("iters", o.iters).n("reported", o.res).n("true", o.tru), 6);
             }
         }
+        // reliable-update sweep: with a weak preconditioner BiCGStab(L) is run for every delta > 0 and L in {1, 2, 4}, right side (the flush of the accumulated
+        // correction is side-specific) and left side alternating, with the full budget
+        if (weak >= 0) for (double dl : {1e-3, 1e-2, 1e-1}) for (int Lp : {1, 2, 4}) { const SolverCfg &s = vf::SOLVER_CFGS[(Lp == 2 && dl == 1e-2) ? 4 : 3];
+            ptree p = pp; CallSpec cs; cs.cfg = s; cs.L = Lp; cs.delta = dl; cs.tol = 1e-8; cs.maxiter = (size_t)r.pick(std::vector<int>{100, 300}); cs.ns_search = fkind == 3;
+            put_solver(p, s, cs.tol, cs.maxiter); p.put("solver.L", Lp); p.put("solver.delta", dl); if (cs.ns_search) p.put("solver.ns_search", true);
+            Outcome o = monitored_solve_t<SolverRt>(c, A, P.K, p, cs, f, x0, rname, P.family.rfind("convdiff", 0) == 0 && weak == 4); if (!o.threw && o.iters >= 1) any = true; vf::obs_sum("reliable_update_sweep_solves"); }
         if (any) c.nontrivial();
         vf::obs_add("families_seen", P.family);
     }
